@@ -287,6 +287,24 @@ def main(chk: lib.Check) -> int:
                 recs.append(dict(kind="item", **it, **base, index=ii, **tag))
         if h["m"] and not any(oc["res"] == "timeout" for oc in o["calls"]):
             traces.append(dict(hid=h["hid"], history=json.dumps(h), calls=[dict(cfg=c["cfg"]["name"], mode=c["mode"], W=c.get("W", 0), events=flatten_events(oc)) for c, oc in zip(h["calls"], o["calls"])]))
+    # ---- (C) the repository's own tests as a driver: every MazeDataset.generate result they produce is judged as well
+    try:
+        from harness import repo_tests
+
+        _g, _sp, summ = repo_tests.observe_dirs(thorough)
+        n_rt = 0
+        for di, d in enumerate(repo_tests.LAST_DS):
+            cfg = d["cfg"]
+            opts = flat_opts(cfg.get("endpoint_kwargs", {}))
+            base = dict(n=cfg["grid_n"], n_req=cfg["n_mazes"], n_got=d["n_got"], res="ok", may_raise=may_raise(cfg), **opts)
+            tag = dict(hid=f"repo_tests:{di}", call=0, mode="pool" if cfg.get("parallel") else "serial", W=0, cfgj=json.dumps(cfg), history="generate call made by the repository's own tests", nontrivial=not opts["isdefault"])
+            recs.append(dict(kind="dataset", shape=[], conn=[], sol=[], start=[], end=[], **base, **tag))
+            for ii, it in enumerate(d["items"]):
+                recs.append(dict(kind="item", **it, **base, index=ii, **tag))
+            n_rt += 1
+        chk.notes["repo_tests"] = dict(dirs=summ, generate_calls=n_rt)
+    except Exception as e:  # noqa: BLE001 - an extra driver, never a reason to fail the check
+        chk.notes["repo_tests"] = dict(error=repr(e)[:200])
     if unfinished:
         print(f"MODEL-DIVERGENCE property=C03 {len(unfinished)} generate call(s) did not return within the watchdog time (not judged): {json.dumps(unfinished[0])[:300]}")
         chk.divergences.append(("M:generate_call_did_not_return", "watchdog"))
